@@ -246,9 +246,13 @@ pub fn combos(nets: &[(String, Network)], tier: Tier) -> Vec<(usize, Vec<usize>,
     let t60 = TrainSpec { n_loaded: 30, n_empty: 30, davis: true, mass_override: None, length_override: None, consist: 3 };
     let t20o = TrainSpec { n_loaded: 10, n_empty: 10, davis: true, mass_override: Some(1.5e6), length_override: Some(400.0), consist: 4 };
     let t3b = TrainSpec { n_loaded: 0, n_empty: 3, davis: true, mass_override: None, length_override: None, consist: 1 };
+    // hybrid units (engine + battery on one drivetrain): their dynamic brake engages when braking exceeds what the battery absorbs
+    let t20h = TrainSpec { n_loaded: 20, n_empty: 0, davis: false, mass_override: None, length_override: None, consist: 5 };
+    let t60h = TrainSpec { n_loaded: 30, n_empty: 30, davis: true, mass_override: None, length_override: None, consist: 6 };
     let idx = |name: &str| nets.iter().position(|n| n.0 == name).unwrap();
     let mut v = vec![
         (idx("line4-a"), vec![1, 2, 3, 4], t3),
+        (idx("line4-a"), vec![1, 2, 3, 4], t20h),
         (idx("line4-a"), vec![1, 2, 3, 4], t60),
         (idx("line4-b"), vec![8, 7, 6, 5], t3b),
         (idx("line4-b"), vec![1, 2, 3, 4], t20),
@@ -267,6 +271,8 @@ pub fn combos(nets: &[(String, Network)], tier: Tier) -> Vec<(usize, Vec<usize>,
             (idx("siding"), vec![8, 7, 5], t3),
             (idx("y-merge"), vec![2, 3], t3),
             (idx("y-merge"), vec![1, 3], t20o),
+            (idx("line4-b"), vec![8, 7, 6, 5], t60h),
+            (idx("siding"), vec![1, 3, 4], t20h),
         ]);
     }
     v
@@ -483,6 +489,11 @@ pub fn replay(which: &str, case: &Value) -> ReplayOutcome {
             }
             if let Some((_, s, _)) = steps.last() {
                 obs = format!("i={} offset={} speed={} pwr={}", s.state.i, s.state.offset.value, s.state.speed.value, s.state.pwr_whl_out.value);
+            }
+            if let Some((_, _, so)) = steps.last() {
+                if !so.accepted {
+                    obs.push_str(&format!(" last-step-rejected: {}", so.err.chars().take(400).collect::<String>().replace('\n', " | ")));
+                }
             }
         }
     }
